@@ -58,13 +58,22 @@ Definition f_init : fstate := {| f_content := None; f_names := [] |}.
 
 (* export_and_merge for one file; `stale` (whatever was on disk before) is irrelevant: the first
    touch truncates *)
-Definition export_item (st : fstate) (i : item) : outcome fstate :=
+Definition export_raw (st : fstate) (ident text : str) : outcome fstate :=
   match f_content st with
-  | None => Ok {| f_content := Some (item_text i); f_names := [it_ident i] |}
+  | None => Ok {| f_content := Some text; f_names := [ident] |}
   | Some old =>
-      if existsb (str_eqb (it_ident i)) (f_names st) then Ok st
-      else bind (merge_into_file old (item_text i)) (fun c =>
-           Ok {| f_content := Some c; f_names := it_ident i :: f_names st |})
+      if existsb (str_eqb ident) (f_names st) then Ok st
+      else bind (merge_into_file old text) (fun c =>
+           Ok {| f_content := Some c; f_names := ident :: f_names st |})
+  end.
+
+Definition export_item (st : fstate) (i : item) : outcome fstate :=
+  export_raw st (it_ident i) (item_text i).
+
+Fixpoint run_raw (st : fstate) (h : list (str * str)) : outcome fstate :=
+  match h with
+  | [] => Ok st
+  | (ident, text) :: r => bind (export_raw st ident text) (fun st' => run_raw st' r)
   end.
 
 Fixpoint run_history (st : fstate) (h : list item) : outcome fstate :=
